@@ -6,6 +6,8 @@ import (
 	"fmt"
 	"os"
 	"runtime/debug"
+	"strings"
+	"sync"
 	"testing"
 
 	"pgregory.net/rapid"
@@ -22,15 +24,33 @@ type Prop[C any] struct {
 	Exec func(c C) (nontrivial bool, labels []string, fail *Failure)
 }
 
+var (
+	surveyMu   sync.Mutex
+	surveySeen = map[string]bool{}
+)
+
 // Outcome of running a single case including a recovered panic.
 func (p Prop[C]) run(c C) (nt bool, labels []string, fail *Failure) {
 	defer func() {
 		if r := recover(); r != nil {
-			fail = Failf(p.ID+":panic:"+panicSite(debug.Stack()), "panic: %v\n%s", r, trimStack(debug.Stack()))
+			fail = PanicFailure(p.ID, r, debug.Stack())
 		}
 	}()
 	return p.Exec(c)
 }
+
+// RunOne executes one case with panic recovery (used by native fuzz targets).
+func (p Prop[C]) RunOne(c C) (bool, []string, *Failure) {
+	nt, labels, f := p.run(c)
+	GetStats(p.ID).Record(c, nt, labels...)
+	return nt, labels, f
+}
+
+// KnownSig reports (and counts) whether the failure matches an open known finding.
+func (p Prop[C]) KnownSig(f *Failure) bool { return GetStats(p.ID).IsKnown(f) }
+
+// SaveReplay stores the failing case as a replay file.
+func (p Prop[C]) SaveReplay(c C, f *Failure) string { return GetStats(p.ID).WriteReplay(c, f) }
 
 // Check drives the property with rapid. Failures matching an open known
 // finding are counted and skipped so the search continues behind them.
@@ -43,6 +63,20 @@ func (p Prop[C]) Check(t *testing.T) {
 		st.Record(c, nt, labels...)
 		if f != nil {
 			if st.IsKnown(f) {
+				return
+			}
+			if os.Getenv("VERIF_SURVEY") != "" {
+				// triage aid: list every distinct signature instead of stopping at the first
+				surveyMu.Lock()
+				if !surveySeen[f.Sig] {
+					surveySeen[f.Sig] = true
+					d := f.Detail
+					if len(d) > 1500 {
+						d = d[:1500]
+					}
+					fmt.Printf("SURVEY %s\n  case=%s\n  %s\n", f.Sig, JSON(c), strings.ReplaceAll(d, "\n", "\n  "))
+				}
+				surveyMu.Unlock()
 				return
 			}
 			path := st.WriteReplay(c, f)
@@ -114,6 +148,12 @@ func Main(m *testing.M) {
 	FlushAll()
 	env.Close()
 	os.Exit(code)
+}
+
+// PanicFailure builds the failure for a recovered panic; the signature is the
+// first data-server frame of the stack (root cause, not crashing input).
+func PanicFailure(id string, r any, stack []byte) *Failure {
+	return Failf(id+":panic:"+panicSite(stack), "panic: %v\n%s", r, trimStack(stack))
 }
 
 func panicSite(stack []byte) string {
